@@ -233,13 +233,17 @@ class ServerAction():
     def run(cls, server=None):
         '''Evaluate functions in order of registration of each server.'''
         if server in cls._servers:
-            for action, pk in cls._servers[server].copy().items():
-                action(server, *pk[0], **pk[1])
+            cls._run_actions(server, server)
         if server is srv.Server.default and 'default' in cls._servers:
-            for action, pk in cls._servers['default'].copy().items():
-                action(server, *pk[0], **pk[1])
+            cls._run_actions('default', server)
         if 'all' in cls._servers:
-            for action, pk in cls._servers['all'].copy().items():
+            cls._run_actions('all', server)
+
+    @classmethod
+    def _run_actions(cls, key, server):
+        for action, pk in cls._servers[key].copy().items():
+            # May be removed by a previous action.
+            if action in cls._servers.get(key, ()):
                 action(server, *pk[0], **pk[1])
 
     @classmethod
